@@ -1659,8 +1659,11 @@ def _vectorish(ctx):
 
 def c11_search(ctx, failing, corr, broken):
     """C11 on the real code: the angle between non-zero finite vectors is a number in [0, Pi<T>], never
-    NaN, bit-identical under swapping the arguments and under power-of-two rescaling."""
-    import pyfloat
+    NaN, the same under swapping the arguments (bit-identical between one kernel and itself; to the
+    conditioning of the arc-cosine between the two kernels of a mixed pair), bit-identical under
+    power-of-two rescaling of every argument that is not a direction, and within 10·2^(-p/2) rad of
+    atan2(|a×b|, a·b) evaluated exactly on the inputs."""
+    import mpmath
     _vectorish(ctx)
     rng = random.Random(ctx.seed + 11)
     ents = [e for e in ctx.model if is_angle_entry(e)]
@@ -1668,8 +1671,30 @@ def c11_search(ctx, failing, corr, broken):
     pis = {int(k): co.frac_of_canon(co.canon_of_hex(v)) for k, v in ctx.tables['pi'].items()}
     norm3 = by_id.get('Direction::ctor(Vector)')
     norm2 = by_id.get('PlanarDirection::ctor(PlanarVector)')
+
+    def args_of(e):
+        m = e['meta']
+        return ([m['cls']] if m.get('self') else []) + list(m['args'])
+    by_args = {}
+    for e in ents:
+        by_args.setdefault((e['meta']['kind'], tuple(args_of(e))), e)
+
+    def reference(a, b):
+        dot = sum(x * y for x, y in zip(a, b))
+        if len(a) == 2:
+            cr2 = (a[0] * b[1] - a[1] * b[0]) ** 2
+        else:
+            cr2 = (a[1] * b[2] - a[2] * b[1]) ** 2 + (a[2] * b[0] - a[0] * b[2]) ** 2 + (a[0] * b[1] - a[1] * b[0]) ** 2
+        with mpmath.workprec(400):
+            return mpmath.atan2(mpmath.sqrt(mpmath.mpf(cr2.numerator) / cr2.denominator),
+                                mpmath.mpf(dot.numerator) / dot.denominator)
+
+    def hexes(fracs):
+        return [co.hex_of(*sexpr_dy(fr)) for fr in fracs]
     out = []
     for fmt in (64, 32, 80):
+        p = co.FMT[fmt][0]
+        tol = mpmath.mpf(10) * mpmath.mpf(2) ** (-p / 2.0)
         # stage 0: unit vectors from the library's own normalisation
         pool = {2: [], 3: []}
         reqs0, meta0 = [], []
@@ -1684,59 +1709,63 @@ def c11_search(ctx, failing, corr, broken):
         res0, _, _ = ctx.run_native(reqs0)
         for n, r in zip(meta0, res0):
             if r and not r.get('error'):
-                pool[n].append([o['t'] for o in r['outs'] if o['l'].rsplit(':', 1)[1].startswith('num')])
+                d = [co.frac_of_canon(co.canon_of_hex(o['t'])) for o in r['outs']
+                     if o['l'].rsplit(':', 1)[1].startswith('num')]
+                if len(d) == n and any(d):
+                    pool[n].append(d)
         reqs, info = [], []
         for e in ents:
-            m = e['meta']
-            args = ([m['cls']] if m.get('self') else []) + list(m['args'])
+            args = args_of(e)
             if len(args) != 2 or not all(a in SHAPE_OF_VECTORISH for a in args):
                 continue
             n = SHAPE_OF_VECTORISH[args[0]]
             if SHAPE_OF_VECTORISH[args[1]] != n:
                 continue
             isdir = ['Direction' in a for a in args]
+            if any(isdir) and not pool[n]:
+                continue
+            twin = e if args[0] == args[1] else by_args.get((e['meta']['kind'], (args[1], args[0])))
             for trial in range(8 if not broken else 30):
-                base = [co.random_value(rng, fmt, 'moderate') for _ in range(n)]
-                base = [(s, mm or 1, ee) for (s, mm, ee) in base]
-                mode = rng.choice(['parallel', 'antiparallel', 'random', 'parallel'])
-                if any(isdir) and pool[n]:
+                mode = rng.choice(['parallel', 'antiparallel', 'random', 'parallel', 'random'])
+                sign = -1 if mode == 'antiparallel' else 1
+
+                def plain():
+                    v = [co.random_value(rng, fmt, 'moderate') for _ in range(n)]
+                    return [_val((s_, mm or 1, ee)) for (s_, mm, ee) in v]
+                if mode == 'random':
+                    vecs = [list(rng.choice(pool[n])) if isdir[k] else plain() for k in range(2)]
+                elif any(isdir):
                     d = rng.choice(pool[n])
+                    # the other argument: the same direction (or, if a vector, d times ±2^sh, exactly)
                     vecs = []
                     for k in range(2):
                         if isdir[k]:
-                            vecs.append(list(d) if mode != 'random' or k == 0 else rng.choice(pool[n]))
+                            vecs.append(list(d) if (sign == 1 or k == 0 or not isdir[0]) else [-t for t in d])
                         else:
-                            # a vector parallel to d: d scaled by a power of two (exact)
                             sh = rng.randrange(-6, 7)
-                            vv = []
-                            for t in d:
-                                fr = co.frac_of_canon(co.canon_of_hex(t)) * Fraction(2) ** sh
-                                if mode == 'antiparallel':
-                                    fr = -fr
-                                neg, mm, ee = sexpr_dy(fr)
-                                vv.append(co.hex_of(neg, mm, ee))
-                            vecs.append(vv)
-                    ins = vecs[0] + vecs[1]
+                            vecs.append([t * Fraction(2) ** sh * sign for t in d])
                 else:
-                    a = base
-                    if mode == 'random':
-                        b = [co.random_value(rng, fmt, 'moderate') for _ in range(n)]
-                        b = [(s, mm or 1, ee) for (s, mm, ee) in b]
-                    else:
-                        k3 = rng.randrange(1, 1 << 10)
-                        b = []
-                        for (s, mm, ee) in a:
-                            fr = pyfloat.round_to(_val((s, mm, ee)) * k3 * (-1 if mode == 'antiparallel' else 1), fmt)
-                            neg, m2, e2 = sexpr_dy(fr)
-                            b.append((neg, m2, e2))
-                    ins = [co.hex_of(*x) for x in a] + [co.hex_of(*x) for x in b]
+                    a = plain()
+                    k3 = rng.randrange(1, 1 << 10) * sign
+                    vecs = [a, [pyfloat_round(x * k3, fmt) for x in a]]
+                ins = hexes(vecs[0]) + hexes(vecs[1])
+                ref = reference(vecs[0], vecs[1])
                 reqs.append((e['index'], fmt, ins, []))
-                info.append((e, ins, n, mode, 'direct'))
-                reqs.append((e['index'], fmt, ins[n:] + ins[:n], []))
-                info.append((e, ins, n, mode, 'swapped'))
+                info.append((e, ins, n, mode, 'direct', ref))
+                if twin is not None:
+                    reqs.append((twin['index'], fmt, ins[n:] + ins[:n], []))
+                    info.append((twin, ins[n:] + ins[:n], n, mode, 'swapped' if twin is e else 'swapped-mixed', ref))
+                if not all(isdir):
+                    ks = [0 if isdir[k] else rng.choice([-17, -9, -1, 1, 6, 20]) for k in range(2)]
+                    sc = [[t * Fraction(2) ** ks[k] for t in vecs[k]] for k in range(2)]
+                    ins2 = hexes(sc[0]) + hexes(sc[1])
+                    reqs.append((e['index'], fmt, ins2, []))
+                    info.append((e, ins2, n, mode, 'rescaled by 2^%d and 2^%d' % tuple(ks), ref))
         res, _, _ = ctx.run_native(reqs)
         last = None
-        for (e, ins, n, mode, which), r in zip(info, res):
+        for (e, ins, n, mode, which, ref), r in zip(info, res):
+            if which == 'direct':
+                last = None
             if r is None or r.get('error'):
                 continue
             outs = num_outs(r)
@@ -1752,20 +1781,31 @@ def c11_search(ctx, failing, corr, broken):
                 v = co.frac_of_canon(c)
                 if v < 0 or v > pis[fmt]:
                     bad = 'is %s, outside [0, Pi<T>]' % c
+                else:
+                    with mpmath.workprec(400):
+                        err = abs(mpmath.mpf(v.numerator) / v.denominator - ref)
+                        if err > tol:
+                            bad = 'is %.12g but atan2(|a x b|, a.b) of the same inputs is %.12g (off by %.3g rad, ' \
+                                  'tolerance %.3g)' % (float(v), float(ref), float(err), float(tol))
             if which == 'direct':
                 last = c
             elif bad is None and last is not None and last != c:
-                a0, a1 = (([e['meta']['cls']] if e['meta'].get('self') else []) + list(e['meta']['args']))
-                if a0 == a1:
+                if which == 'swapped':
                     bad = 'is %s but %s with the arguments swapped' % (last, c)
+                elif which.startswith('rescaled'):
+                    bad = 'is %s but %s with the vector arguments %s' % (last, c, which)
             if bad:
                 out.append({'kind': 'c11-angle', 'entry': e['id'], 'fmt': fmt, 'index': e['index'],
-                            'inputs': ins if which == 'direct' else ins[n:] + ins[:n], 'arrangement': mode,
-                            'native_output': c,
+                            'inputs': ins, 'arrangement': mode, 'variant': which, 'native_output': c,
                             'what': 'the angle computed by %s for %s non-zero finite vectors %s' % (e['id'], mode, bad)})
                 if len(out) >= 4:
                     return out
     return out
+
+
+def pyfloat_round(x, fmt):
+    import pyfloat
+    return pyfloat.round_to(x, fmt)
 
 
 # ---------------------------------------------------------------------------------------------------
@@ -1811,6 +1851,23 @@ def c10_search(ctx, failing, corr, broken):
                 sc = [(s, mm, ee + k) for (s, mm, ee) in vals]
                 reqs.append((e['index'], fmt, [co.hex_of(*x) for x in sc], []))
                 info.append((e, fmt, sc, 'scaled', n, simple))
+            if simple and all(f == fmt for f in infm[:n]):
+                # the ends of the stated range: squared length a few binades above the smallest normal
+                # number and a few binades below overflow (components within 2^±3 of each other)
+                pp, emax = co.FMT[fmt]
+                emin = 1 - emax
+                for end in ('low', 'high'):
+                    for trial in range(1 if not broken else 4):
+                        base = (emin + 12) // 2 + 1 + rng.randrange(0, 7) if end == 'low' else \
+                            (emax - 12) // 2 - rng.randrange(0, 7)
+                        vals = [(rng.random() < 0.4, (1 << (pp - 1)) | rng.getrandbits(pp - 1),
+                                 base + rng.randrange(-3, 4) - (pp - 1)) for _ in range(n)]
+                        reqs.append((e['index'], fmt, [co.hex_of(*x) for x in vals], []))
+                        info.append((e, fmt, vals, 'base', n, simple))
+                        k = rng.randrange(1, 11) * (1 if end == 'low' else -1)
+                        sc = [(s, mm, ee + k) for (s, mm, ee) in vals]
+                        reqs.append((e['index'], fmt, [co.hex_of(*x) for x in sc], []))
+                        info.append((e, fmt, sc, 'scaled', n, simple))
             zeros = [(False, 0, 0)] * n
             reqs.append((e['index'], fmt, [co.hex_of(*x) for x in zeros], []))
             info.append((e, fmt, zeros, 'zero', n, simple))
@@ -2088,6 +2145,15 @@ def c07_search(ctx, failing, corr, broken):
                             'related_system': sysname.get(rel.get(v)), 'consistent_unit_of': [sysname[s] for s in owners],
                             'what': 'RelatedUnitSystem(%s::%s) is %s but the unit is the consistent unit of %s' % (
                                 u['name'], name, sysname.get(rel.get(v)), [sysname[s] for s in owners])})
+    if broken and len(out) < 8:
+        # the code's own constants: C01's search, kept for the consistent units
+        consistent = {(u['name'], dict((x[1], x[0]) for x in u['enumerators']).get(v))
+                      for u in ctx.tables['units'] for _, v in u['consistent']}
+        for v in c01_search(ctx, failing, corr, broken) or []:
+            if (v.get('unit_type'), v.get('unit')) in consistent or v.get('unit') is None:
+                v = dict(v)
+                v['kind'] = 'c07-magnitude'
+                out.append(v)
     return out[:8]
 
 
